@@ -25,6 +25,18 @@ def _h(tab):
     return neuropixel.trace_header(**TABLES[tab])
 
 
+def _phys(tab):
+    """
+    the physical sampling delay of each channel, from the hardware description (NP1 / NPultra: 32 ADCs of 12 channels sampled in 13 slots, channels 2k and 2k+1 of a
+    block of 24 converted together; NP2: 16 slots, blocks of 32) - written here independently of the library's table, so that the *recorded* data do not inherit a
+    mistake of that table (property C08 compares the table itself with this description)
+    """
+    c = np.arange(384)
+    if tab in ("NP1", "NPultra"):
+        return ((c % 24) // 2) / 13.0
+    return ((c % 32) // 2) / 16.0
+
+
 def _version(tab):
     return {"NP1": 1, "NP2": 2, "NP2.4": 2, "NPultra": 1}[tab]
 
@@ -99,7 +111,7 @@ def _pulse(n, fs, pulse, band, rng):
 def stripe_check(case):
     tab, pulse, variant, band = case
     h = _h(tab)
-    sh = h["sample_shift"]
+    sh = _phys(tab)          # what the probe does to the signal; the library is handed its own header
     rng = np.random.default_rng([SEED[0] + 3, pulse])
     v = []
     if band == "ap":
@@ -158,10 +170,10 @@ def spike_check(case):
     true = np.zeros((384, n))
     t0 = 700
     true[:, t0:t0 + wav.shape[1]] = wav
-    x = fourier.fshift(true + noise, -h["sample_shift"], axis=1)       # recorded with each channel's ADC delay
+    x = fourier.fshift(true + noise, -_phys(tab), axis=1)       # recorded with each channel's physical ADC delay
     out = voltage.destripe(x.copy(), fs, h=h, neuropixel_version=_version(tab), k_filter=(variant == "kfilt"))
     sos = scipy.signal.butter(N=3, Wn=300 / fs * 2, btype="highpass", output="sos")
-    ref = fourier.fshift(scipy.signal.sosfiltfilt(sos, x), h["sample_shift"], axis=1)
+    ref = fourier.fshift(scipy.signal.sosfiltfilt(sos, x), _phys(tab), axis=1)
     ic, it = np.unravel_index(np.argmax(np.abs(ref[:, t0:t0 + 121])), (384, 121))
     it += t0
     ratio = out[ic, it] / ref[ic, it]
